@@ -3132,6 +3132,7 @@ func ruleErrFanout(c *Ctx) []Obligation {
 	if n == 0 {
 		obs = append(obs, ok(R, "no wholesale append of a recursive error list", "-", "the resolvers take recursive results element by element or not in a loop"))
 	}
+	obs = append(obs, errFanoutMerge(c)...)
 	return obs
 }
 
@@ -3601,4 +3602,69 @@ func (c *Ctx) YangSSAPkg() *ssa.Package {
 		}
 	}
 	return nil
+}
+
+// errFanoutMerge: the function that links the children of one entry under another (merge) does not also collect, into
+// the target, the errors of the subtree whose children it links: they stay on the linked children, and collecting them
+// as well doubles every error at each level of nested uses (hunt/h3/C01/finding1: 2^40 copies of one error).
+func errFanoutMerge(c *Ctx) []Obligation {
+	const R = "ERR.FANOUT"
+	con := "the link function does not collect the errors of the subtree whose children it links"
+	merge := c.mergeFn()
+	entry := c.MustNamed("yang", "Entry")
+	fDir, fErrs := FieldVar(entry, "Dir"), FieldVar(entry, "Errors")
+	if merge == nil || fDir == nil || fErrs == nil {
+		return []Obligation{undecided(R, con, "-", "the link function / Entry.Dir / Entry.Errors not found")}
+	}
+	// the entries whose child maps are ranged over and linked: bases of a range over X.Dir in merge
+	var sources []ssa.Value
+	c.eachInstrDeep(merge, func(in ssa.Instruction) {
+		if r, isR := in.(*ssa.Range); isR {
+			if _, f, base := loadedField(r.X); f == fDir && base != nil {
+				sources = append(sources, base)
+			}
+		}
+	})
+	if len(sources) == 0 {
+		return []Obligation{undecided(R, con, c.Pos(merge.Pos()), "the link function ranges over no child map")}
+	}
+	// recursive collectors: repo methods on *Entry that call themselves and append to Entry.Errors (directly or through
+	// a helper)
+	collector := func(fn *ssa.Function) bool {
+		if fn == nil || !c.isRepoFn(fn) || len(c.callsTo(fn, fn)) == 0 {
+			return false
+		}
+		writes := false
+		for f := range c.Reach([]*ssa.Function{fn}, nil) {
+			if len(storesToField(f, fErrs)) > 0 {
+				writes = true
+			}
+		}
+		return writes
+	}
+	var obs []Obligation
+	bad1 := ""
+	c.eachInstrDeep(merge, func(in ssa.Instruction) {
+		call, isC := in.(*ssa.Call)
+		if !isC || bad1 != "" {
+			return
+		}
+		cal := call.Call.StaticCallee()
+		if !collector(cal) {
+			return
+		}
+		for _, a := range call.Call.Args {
+			for _, src := range sources {
+				if sameObject(resolveArg(a), resolveArg(src)) {
+					bad1 = c.InstrPos(call)
+				}
+			}
+		}
+	})
+	if bad1 != "" {
+		obs = append(obs, bad(R, con, bad1, "the whole subtree's errors are collected into the target and the children, which still carry them, are linked as well: every level of nested uses doubles the count — one unknown type under 40 nested groupings is held 2^40 times and Process runs out of memory before the duplicates can be removed"))
+	} else {
+		obs = append(obs, ok(R, con, c.Pos(merge.Pos()), "only the merged entry's own errors (and those of a child that is not linked) are taken over"))
+	}
+	return obs
 }
